@@ -117,7 +117,7 @@ class Hist(Stream):
         self.check_fn = 'check_iso_shared' if kind == 'shared' else 'check_iso_disjoint'
         self.rule = ('%s store: random interleaved histories (depth 8-30) over 3 graph ids x 5 node ids incl. imports '
                      'of graphs whose keys collide with stored internal ids, re-import, delete+re-import, clone, '
-                     'malformed imports, merge scenarios, plus all histories of depth<=D over a 9-operation alphabet; '
+                     'malformed imports (no merge_nodes: not in C04s quantifier), plus all histories of depth<=D over a 9-operation alphabet; '
                      'non-trivial = at least two graph ids hold nodes at some step and >=3 state-changing steps; '
                      'distinct by (history, observations)' % kind)
 
